@@ -730,6 +730,8 @@ LAYOUT_HAND.append(
 
 HAND = [
     'void g(int n, int (*a)[n]); void g2(int n, int m, int a[n][m], int (*b)[m][n]); long d(int n, int (*a)[n]) { return sizeof *a; }\nlong h(void *q, int (*r)[3]) { g(3, q); g(3, r); g2(2, 3, q, q); return d(4, q) + d(3, r); }\n',
+    # the size operand of alloca has class l whatever the type of the argument
+    'void *f(unsigned n, unsigned short h, _Bool b, unsigned char c, int i, long l) { char *p = __builtin_alloca(n); p += (long)__builtin_alloca(h) + (long)__builtin_alloca(b) + (long)__builtin_alloca(c) + (long)__builtin_alloca(i) + (long)__builtin_alloca(l) + (long)__builtin_alloca(n + h); return p; }\n',
     # variable length arrays whose elements have size zero (GNU zero-length arrays): every operand present
     'struct S { int x[0]; }; typedef int Z[0]; int f(int n) { struct S a[n]; Z b[n]; Z c[n][2]; struct S d[2][n]; return sizeof a + sizeof b + sizeof c + sizeof d; }\n',
     '_Noreturn void ab(void); int f(int c){ return c ? 1 : (ab(), 2); }\nint g(int c){ return c ? (ab(), 1) : 2; }\nint h(int c) { return c && (ab(), 1); }\nint k(int c) { return c || (ab(), 0); }\n',
